@@ -120,7 +120,10 @@ RequiredTests == { [rpc |-> SnakeOf[r], kind |-> k, pager |-> FALSE] : r \in Lib
 \* verdict on one observed run of the emitted suite
 SuiteOk(tests, failures, errors) == failures = 0 /\ errors = 0 /\ RequiredTests \subseteq tests
 
-Case == [ features |-> F, transports |-> Transports, clients |-> Clients, registry |-> Registry, default |-> DefaultTransport,
+\* distributions setup.py must declare: whatever the emitted package imports unconditionally must be installable from them
+RequiredDists == {"google-api-core[grpc]", "google-auth", "proto-plus"}
+                 \cup (IF Has("o_iam") \/ Has("o_mixins") THEN {"grpc-google-iam-v1"} ELSE {})   \* google.iam.v1 is imported by the clients
+Case == [ dists |-> RequiredDists, features |-> F, transports |-> Transports, clients |-> Clients, registry |-> Registry, default |-> DefaultTransport,
           services |-> Services, rpcs |-> LibraryRpcs, paged |-> Paged, lro |-> Lro, cstream |-> ClientStreaming,
           void |-> Void, mixins |-> Mixins, conventional |-> Conventional, ads |-> Has("o_ads") ]
 Emit == stage = "done" => PrintT(<<"CASE", ToJson(Case)>>)
